@@ -7,6 +7,7 @@ from .. import paths, waiters
 from ..core import FUNC, call_attr, calls_in, const, dotted, is_const, kwarg, norm, text, walk_local
 
 EXPLANATION = [
+    "C13.link-key-needs-sc: every `self.link_key = derive_link_key(self.ltk, ...)` of smp.Session is guarded by self.sc (with legacy pairing each side's ltk is its own).",
     'C13.passkey-verbatim: Session.input_passkey stores the number the user entered unchanged (the parameter of its continuation is not reassigned before `self.passkey = passkey`).',
     "C13.declared-only-reads: Session.get_long_term_key (callable at any time of a session's life) reads none of the attributes Session only declares and assigns later (ltk, ea, eb, ...) directly.",
     'C13.distribution-order: every distribute_keys() call of smp.Session is guarded by the pairing role (self.is_responder / self.is_initiator), never by the link-layer role.',
@@ -938,7 +939,26 @@ def passkey_verbatim(ctx):
         R.check(ok, rule, f'{S}.input_passkey.{g.name}', 'self.passkey = passkey, unchanged', f'the typed passkey is changed before it is used (`{norm(re_[0])[:40] if re_ else norm(st[0])[:40] if st else "?"}`): a wrong entry that maps to the displayed value is accepted and keys marked authenticated are stored', p.loc(re_[0]) if re_ else p.loc(g))
 
 
+def link_key_needs_sc(ctx):
+    """A link key derived from `self.ltk` is the same on both sides only when that LTK is the shared Secure Connections key:
+    with legacy pairing each side holds the LTK it generated itself.  Every such derivation is guarded by `self.sc`."""
+    R, p = ctx.r, ctx.p
+    rule = 'C13.link-key-needs-sc'
+    ci = p.cls(S)
+    if ci is None:
+        R.bad(rule, S, 'anchor missing')
+        return
+    n = 0
+    for name, fn in sorted(ci.methods.items()):
+        for st in [x for x in walk_local(fn) if isinstance(x, ast.Assign) and dotted(x.targets[0]) == 'self.link_key' and isinstance(x.value, ast.Call) and call_attr(x.value) == 'derive_link_key' and any(norm(a) == 'self.ltk' for a in x.value.args)]:
+            n += 1
+            g = [(norm(t), pol) for t, pol in paths.flat_guards(st, stop=fn)]
+            R.check(('self.sc', True) in g or ('not self.sc', False) in g, rule, f'{S}.{name} | link key from the LTK', 'only under self.sc', f'{name} derives the link key from self.ltk whatever the pairing kind: after legacy pairing the two devices derive it from two different LTKs and store different link keys for the same bond', p.loc(st))
+    R.check(n >= 2, rule, f'{S} | link key derivations', f'{n}', f'only {n} found')
+
+
 RULES = [
+    ('C13.link-key-needs-sc', link_key_needs_sc),
     ('C13.passkey-verbatim', passkey_verbatim),
     ('C13.declared-only-reads', declared_only_reads),
     ('C13.distribution-order', distribution_order),
